@@ -126,7 +126,9 @@ def build_world(spec: dict) -> World:
             strat_objs = []
             for s in t["strats"]:
                 so = R["ExecutionStrategy"](
-                    resources=Resources(resource_vector={Resource(name=n, _id="any"): q for n, q in s["req"]}),
+                    # an entry is [type, quantity] (any instance) or [type, quantity, k] (the k-th resource instance of
+                    # the cluster, counted over pools / workers / entries as `w.rid` does)
+                    resources=Resources(resource_vector={Resource(name=e[0], _id=("any" if len(e) < 3 else f"id{e[2]}")): e[1] for e in s["req"]}),
                     batch_size=1,
                     # the same duration given in another unit (mixed units inside one profile)
                     runtime=EventTime(int(s["runtime"]) // 1000, EventTime.Unit.MS) if s.get("rt_ms") else US(s["runtime"]),
@@ -509,7 +511,8 @@ def prio_key(w: World, task):
     if ts["state"] in ("RUNNING", "PREEMPTED") and ts.get("prev"):
         remaining = ts["prev"]["remaining"]
     else:
-        remaining = max(s_["runtime"] for s_ in ts["strats"])
+        # the strategies the task's profile offers NOW (one may have been added between two invocations)
+        remaining = max(_t(s_.runtime) for s_ in task.available_execution_strategies)
     return (_t(task.deadline) - w.now - remaining,)
 
 
@@ -644,6 +647,11 @@ def oracle_c13(w: World, rec: dict) -> list[str]:
     single = all(len(pool.workers) == 1 for pool in w.pools)
     for i, p in enumerate(pls):
         if p.placement_type != PT.PLACE_TASK or p.is_placed():
+            continue
+        if w.spec.get("specific_ids"):
+            # the independent fit check works on per-type totals; requests for one specific resource instance are
+            # tied to the worker that owns it, so in such worlds only the processing order is judged here (the
+            # placements themselves are compared with the model, which knows instances)
             continue
         # account for every placed task of higher or equal priority, in decision order
         occ = Occupancy(w)
@@ -824,6 +832,29 @@ def gen_world(rng, kind: str, policy: str | None = None, widened: bool = False) 
                 t["unsched"] = {"w": r2.randrange(len(order)), "s": r2.choice(fast), "time": r2.randint(t["release"], now)}
     if r2.random() < 0.3:
         world["round2"] = True
+        if r2.random() < 0.5:
+            world["round2_grow"] = {"pick": r2.randrange(8), "extra": r2.randint(1, 6)}
+    if kind == "mix" and r2.random() < 0.35:
+        # some strategies ask for one specific resource instance (by id) instead of any instance of the type; never
+        # both forms of one type inside one strategy (that combination is the known finding C05-OV)
+        world["specific_ids"] = True
+        inst, k_ = {}, 0
+        for p_ in pools:
+            for wk in p_["workers"]:
+                for n_, q_ in wk["res"]:
+                    inst.setdefault(n_, []).append((k_, q_))
+                    k_ += 1
+        for g in graphs:
+            for t in g["tasks"]:
+                if t["state"] in ("RUNNING", "PREEMPTED", "COMPLETED"):
+                    continue   # their previous placement was generated against per-type totals
+                for s_ in t["strats"]:
+                    for e in s_["req"]:
+                        if len(e) == 2 and e[0] in inst and r2.random() < 0.4:
+                            k_, q_ = r2.choice(inst[e[0]])
+                            e.append(k_)
+                            if e[1] > q_ and r2.random() < 0.7:
+                                e[1] = max(1, q_)
     if r2.random() < 0.2:
         # the same world on a 1000x time scale, with some runtimes / deadlines written in milliseconds: a profile
         # then mixes units (e.g. 3 ms next to 4000 us), which must not change any decision
@@ -986,6 +1017,23 @@ def run_case(spec: dict):
                     p.task.cancel(US(w.now))
                 except Exception:
                     pass
+        grow = spec.get("round2_grow")
+        if grow is not None:
+            # between the two invocations a slower strategy is registered on the (shared, mutable) work profile of a
+            # task that is still waiting: whatever was memoised about the task during the first invocation is stale
+            R = _repo()
+            losers = [p.task for p in rec["placements"] if not p.is_placed() and p.task.state.name == "RELEASED"]
+            if losers:
+                task = losers[grow["pick"] % len(losers)]
+                strats = list(task.available_execution_strategies)
+                if strats:
+                    base = strats[0]
+                    slow = max(_t(s_.runtime) for s_ in strats) + grow["extra"]
+                    so = R["ExecutionStrategy"](resources=base.resources, batch_size=1, runtime=US(slow))
+                    w.sid[id(so)] = max(w.sid.values(), default=-1) + 1
+                    w.strat_spec[w.sid[id(so)]] = None
+                    w._keep = getattr(w, "_keep", []) + [so]
+                    task.available_execution_strategies.add_strategy(so)
         rec = real_schedule(w)
     case = driver_case(w, rec) if rec["offered"] is not None else None
     return w, rec, case
